@@ -1203,6 +1203,17 @@ class C15(PropOracle):
         for p in range(1, k):
             if not self._stage_complete(w, p):
                 self.v(w, f"{what} of stage {k} while stage {p} is not complete", "stage-started-early")
+        # ground truth of the scheduler, not only JADE's flag: no batch of an earlier stage is still waiting to start
+        # or running its jobs (the node that completes a stage is past its jobs: it triggers the next stage itself)
+        for b in w.sim.active_batches():
+            m = RE_STAGE.search(b.config or b.script or "")
+            if not m or int(m.group(1)) >= k:
+                continue
+            rows = disk_rows(w, root=f"{w.root}/output-stage{m.group(1)}")
+            pending = sorted(str(j) for j in (b.jobs or []) if str(j) not in rows)
+            if pending:
+                self.v(w, f"{what} of stage {k} while batch {b.name} of stage {m.group(1)} is still {b.state} in the scheduler and its jobs {pending} have no recorded result yet",
+                       "stage-started-while-batch-active")
 
     def on_sbatch(self, w, vp, d):
         m = RE_STAGE.search(d.get("config") or d.get("script") or "")
@@ -1275,14 +1286,20 @@ class C15(PropOracle):
             if self.inits.get(k, 0) != 1:
                 self.v(w, f"stage {k} was configured {self.inits.get(k, 0)} times", "stage-init-count")
             res = read_json(f"{w.root}/output-stage{k}/results.json") or {}
-            want = 1 if res.get("missing_jobs") else 0
+            names = {j["name"] for j in w.scen["stages"][k - 1]["jobs"]}
+            # what happened: the rows recorded on disk for the stage (a job without a row is missing)
+            rows = disk_rows(w, root=f"{w.root}/output-stage{k}")
+            truly_missing = sorted(n_ for n_ in names if n_ not in rows)
+            want = 1 if truly_missing else 0
             got = p["stages"][k - 1].get("return_code")
             if got != want:
-                self.v(w, f"pipeline.json records return_code {got} for stage {k}, the stage ended with {want}", "stage-return-code")
-            names = {j["name"] for j in w.scen["stages"][k - 1]["jobs"]}
+                self.v(w, f"pipeline.json records return_code {got} for stage {k}, the stage ended with {want} "
+                          f"(jobs without a recorded result: {truly_missing}; results.json missing_jobs: {res.get('missing_jobs')})", "stage-return-code")
             have = {r["name"] for r in res.get("results", [])}
             if names != have | set(res.get("missing_jobs", [])):
                 self.v(w, f"stage {k} results list {sorted(have)} for jobs {sorted(names)}", "stage-results")
+            if sorted(res.get("missing_jobs", [])) != truly_missing:
+                self.v(w, f"stage {k}: results.json reports missing jobs {sorted(res.get('missing_jobs', []))}, jobs without a recorded result are {truly_missing}", "stage-missing-jobs")
         for k in range(2, n + 2):
             if self.next_calls.get(k, 0) != 1:
                 self.v(w, f"submit-next-stage --stage-num={k} invoked {self.next_calls.get(k, 0)} times", "next-stage-count")
